@@ -378,6 +378,15 @@ def m_bytes(x=b"", *a):
     raise Unsupported("bytes(%s)" % type(x).__name__)
 
 
+def m_bytearray(x=b"", *a):
+    # read-only uses only (indexing, bytes(...)): a SymBytes stands in for the bytearray
+    if isinstance(x, SymBytes):
+        return x
+    if isinstance(x, (list, tuple)):
+        return mkbytes(list(x))
+    raise Unsupported("bytearray(%s)" % type(x).__name__)
+
+
 def m_ord(c):
     if isinstance(c, (SymStr, SymBytes)) and len(c) == 1:
         return c.items[0]
@@ -463,6 +472,7 @@ MODELS = {
     int: m_int,
     bool: m_bool,
     bytes: m_bytes,
+    bytearray: m_bytearray,
     ord: m_ord,
     chr: m_chr,
     str: m_str,
